@@ -1097,13 +1097,15 @@ class GraphQLSchema:
         definition
         :rtype: GraphQLObjectType
         """
-        try:
-            return self._operation_types[operation.operation_type]
-        except KeyError:
+        operation_root_type = self._operation_types.get(
+            operation.operation_type
+        )
+        if operation_root_type is None:
             raise graphql_error_from_nodes(
                 "Schema is not configured for %ss." % operation.operation_type,
                 nodes=operation,
             )
+        return operation_root_type
 
     def _bake_extensions(self):
         for extension in self.extensions:
